@@ -451,7 +451,10 @@ func (vm *VM) extractLatestOutputBlock(ctx context.Context) (*chain.OutputBlock,
 	if err != nil {
 		return nil, fmt.Errorf("failed to get last accepted height: %w", err)
 	}
-	if lastIndexedHeight != stateHeight && lastIndexedHeight != stateHeight+1 {
+	// Blocks are indexed before they are executed (and the asynchronous accepter may lag several
+	// blocks behind), so after an unclean shutdown the index may be ahead of the state by any
+	// number of blocks, but never behind it.
+	if lastIndexedHeight < stateHeight {
 		return nil, fmt.Errorf("cannot extract latest output block from invalid state with last indexed height %d and state height %d", lastIndexedHeight, stateHeight)
 	}
 
@@ -486,20 +489,19 @@ func (vm *VM) extractLatestOutputBlock(ctx context.Context) (*chain.OutputBlock,
 		}, nil
 	}
 
-	// The last indexedHeight must be stateHeight+1, so we can execute the last block to populate
-	// execution results
-	blk, err := vm.chainStore.GetBlockByHeight(ctx, stateHeight+1)
+	// The index is ahead of the state. Return the block that matches the state: the chain (and
+	// its validity window) does not exist yet at this point of initialization, so the blocks
+	// above the state height are re-executed and accepted by the consensus wrapper, which
+	// reprocesses from the returned output block up to the last indexed block.
+	blk, err := vm.chainStore.GetBlockByHeight(ctx, stateHeight)
 	if err != nil {
 		return nil, fmt.Errorf("failed to get block at latest state height %d: %w", stateHeight, err)
 	}
-	outputBlock, err := vm.chain.Execute(ctx, vm.stateDB, blk, false)
-	if err != nil {
-		return nil, fmt.Errorf("failed to execute block at latest state height %d: %w", stateHeight, err)
-	}
-	if _, err := vm.AcceptBlock(ctx, nil, outputBlock); err != nil {
-		return nil, err
-	}
-	return outputBlock, nil
+	return &chain.OutputBlock{
+		ExecutionBlock:   blk,
+		View:             vm.stateDB,
+		ExecutionResults: &chain.ExecutionResults{},
+	}, nil
 }
 
 func (vm *VM) initGenesisAsLastAccepted(ctx context.Context) (*chain.OutputBlock, error) {
